@@ -13,12 +13,16 @@ The driver renders, drives and projects only.  What *should* be observed is comp
 by TLC from LoaderUser.tla.
 
 Scenario (JSON, the same record TLC reads):
-  id, user: [class names], grepo: bool, procs: [rule names with an object processor],
-  files: [ {kind: main|import|inner|follow, ok: bool, objs: [{cls, parent}], (preorder, objs[0] = Model root)
-            refs: [{owner, tf, to, post, inner, swallow}],  (textual order; to = 0: unknown name)
+  id, user: [class names], own: [user classes with their own attribute-access methods],
+  grepo: bool, procs: [rule names with an object processor],
+  files: [ {kind: main|import|inner|follow, objs: [{cls, parent}],   (preorder, objs[0] = Model root)
+            refs: [{owner, tf, to, post, inner, swallow}],  (textual order; post = Postponed answers first;
+                                                             inner = file loaded from a string by the provider)
             imports: [file index]} ],                       (1-based indices everywhere)
-  fault: {step, f, k}, follow: file index of the follow-up input,
-  flav: {class: flavour}   (rendering only; the specification does not look at it)
+  fault: {step, f, k}   step in none|parse|matchproc|provider|unknown|unresolvable|init|objproc|modelproc,
+                        located at file f and reference / object k,
+  follow: file index of the follow-up input,
+  flav: {class: flavour}   (rendering only; the specification sees `own`)
 """
 from __future__ import annotations
 
@@ -104,17 +108,18 @@ def render_file(sc, f):
                 rr = refs[r - 1]
                 if fault["step"] == "matchproc" and fault["f"] == f and fault["k"] == r:
                     out.append(BOOM)
-                elif rr["to"] == 0:
+                elif fault["step"] == "unknown" and fault["f"] == f and fault["k"] == r:
                     out.append(NOPE)
                 else:
                     out.append(obj_name(sc, rr["tf"], rr["to"]))
         else:
             raise tlc.MachineryError(f"unknown class {o['cls']}")
 
-    if not fl["ok"]:
+    broken = fault["step"] == "parse" and fault["f"] == f
+    if broken:
         out.append("model broken {{{ ")
     emit(1)
-    if not fl["ok"]:
+    if broken:
         out.append(" }}} ???")
     return "".join(out), refpos, objpos
 
@@ -380,7 +385,8 @@ class Driver:
         if ft["step"] == "provider" and (f, k) == (ft["f"], ft["k"]) and self.round == 1:
             self.emit("Resolve", f=f, k=k, ans="raise", st=self.state())
             raise Boom("provider")
-        if n <= r["post"]:
+        post = 10 ** 6 if (ft["step"] == "unresolvable" and (f, k) == (ft["f"], ft["k"]) and self.round == 1) else r["post"]
+        if n <= post:
             self.emit("Resolve", f=f, k=k, ans="postponed", st=self.state())
             return Postponed()
         res = real(obj, attr, ref)
@@ -516,3 +522,47 @@ def common_reset():
     if "textx.registration" in sys.modules:
         reg = sys.modules["textx.registration"]
         reg.metamodels = {}
+
+
+# ------------------------------------------------------------------ projection for TLC
+def tlc_events(sc, run):
+    """The recorded log in the uniformly typed shape TraceLoaderUser.tla reads."""
+    user = sc["user"]
+    out = []
+    for e in run["events"]:
+        n = e["ev"]
+        if n in ("LoadBegin", "InnerBegin"):
+            continue
+        t = dict(ev=n, o=0, k=0, s="", args=[], refs=[], b=False, hasst=False, si=[], ss=[], so=[])
+        if n == "UserNew":
+            t.update(o=e["obj"], s=e["cls"])
+        elif n == "Resolve":
+            t.update(o=oid(e["f"], e["k"]), k=e.get("to", 0), s=e["ans"])
+        elif n == "UserInit":
+            t.update(o=e["obj"], k=e["parent"], s=e["cls"], args=e["args"], refs=e["refs"])
+        elif n == "ObjProc":
+            t.update(o=e["obj"], s=e["rule"])
+        elif n == "ModelProc":
+            t.update(o=e["f"])
+        elif n == "LoadEnd":
+            t.update(o=e["f"], s=e["res"])
+        elif n == "Post":
+            t.update(b=e["ok"], refs=e["retained"])
+        else:
+            raise tlc.MachineryError(f"unknown event {n}")
+        st = e.get("st")
+        if st is not None:
+            t.update(hasst=True, si=[st[c]["instr"] for c in user], ss=[st[c]["store"] for c in user],
+                     so=[st[c]["orig"] for c in user])
+        out.append(t)
+    fo = run.get("follow")
+    if fo is not None:
+        out.append(dict(ev="Follow", o=0, k=0, s=fo["res"], args=[], refs=[],
+                        b=bool(fo["same_dump"] and fo["res"] == fo["fresh_res"]),
+                        hasst=False, si=[], ss=[], so=[]))
+    return out
+
+
+def spec_scenario(sc):
+    """The part of the scenario the specification reads (no rendering choices)."""
+    return {k: sc[k] for k in ("id", "user", "own", "grepo", "procs", "files", "fault", "follow")}
